@@ -106,11 +106,12 @@ def program(hist):
             # this statement runs inside a FUNCTION that an item of the statement before it calls (another device:
             # the two statements do not see each other)
             prev = lines.pop()
-            it = [i for i in hist[j - 1]["items"] if i["k"] == "num" and i.get("ty", "I") == "I" and "c" not in i and not i.get("neg0")][0]
+            cands = hist[j - 1]["vals"] if "using" in hist[j - 1] else hist[j - 1]["items"]
+            it = [i for i in cands if i["k"] == "num" and i.get("ty", "I") == "I" and "c" not in i and not i.get("neg0")][0]
             e = expr_of(it)
-            k = prev.index(" " + e) + 1
+            k = prev.rindex(" " + e) + 1 if s.get("lastitem") else prev.index(" " + e, prev.index('";') if "using" in hist[j - 1] else 0) + 1
             lines.append(prev[:k] + "NF%%(%s)" % e + prev[k + len(e):])
-            tail = ["FUNCTION NF% (V%)", stmt_text(s), "NF% = V%", "END FUNCTION"]
+            tail = ["FUNCTION NF% (V%)" + (" STATIC" if s.get("static") else ""), stmt_text(s), "NF% = V%", "END FUNCTION"]
         else:
             lines.append(stmt_text(s))
     lines += ["CLOSE"] + tail
@@ -171,9 +172,10 @@ def gen_histories(tier, rng):
         for inner in must + rng.sample(L, 4):
             for d1, d2 in (("f1", "scr"), ("scr", "f1"), ("f1", "f2"), ("lpt", "scr"), ("scr", "lpt"), ("f2", "lpt")):
                 for p in (([], pend[0], pend[1]) if tier == "thorough" else ([], pend[0])):
-                    h = ([{"dev": d2, "items": p}] if p else []) + [{"dev": d1, "items": outer}, {"dev": d2, "items": inner, "infn": True},
-                                                                     {"dev": d1, "items": [ITEMS[1]]}, {"dev": d2, "items": [ITEMS[1]]}]
-                    hs.append(h)
+                    for static in (False, True):
+                        h = ([{"dev": d2, "items": p}] if p else []) + [{"dev": d1, "items": outer}, {"dev": d2, "items": inner, "infn": True, "static": static},
+                                                                         {"dev": d1, "items": [ITEMS[1]]}, {"dev": d2, "items": [ITEMS[1]]}]
+                        hs.append(h)
     return hs
 
 
@@ -189,6 +191,8 @@ def gen_using(tier, rng):
         return dict(num_item(0, ty), c=c)
     nums += [scaled(250 + 1, "D"), scaled(6190, "D"), scaled(-775 - 1, "D"), scaled(199, "D"), scaled(123456, "D"), scaled(-4027, "D"),
              scaled(275 + 1, "S"), scaled(6190, "S"), scaled(-1224, "S"), scaled(112, "S")]
+    # between -1 and 1: the whole part is 0, the sign is still the number's
+    nums += [scaled(-26, "D"), scaled(-37, "S"), scaled(26, "D"), scaled(-91, "D"), scaled(-63, "S")]
     strs = [str_item(S("a")), str_item(S("hello")), str_item(S("xy")), str_item([])]
     fmts = []
     for n in range(1, 6):
@@ -234,6 +238,20 @@ def gen_using(tier, rng):
             if rng.random() < 0.3:
                 h.append({"dev": rng.choice(DEVS), "items": [ITEMS[10]]})
         hs.append(h)
+    # a PRINT USING statement that runs inside a FUNCTION (STATIC or not) called from a value of another PRINT USING statement,
+    # on another device: each is rendered through ITS format
+    ints = [num_item(5), num_item(-7), num_item(42), num_item(123)]
+    for fo in multi:
+        if any(c in (33, 92) for c in fo):
+            continue
+        for fi in multi:
+            for d1, d2 in (("f1", "scr"), ("scr", "f1"), ("lpt", "f2")):
+                for static in (False, True):
+                    vi = [rng.choice(strs) if any(c in (33, 92) for c in fi) else rng.choice(nums) for _ in range(rng.randint(1, 2))]
+                    vo = [rng.choice(ints) for _ in range(rng.randint(1, 3))]
+                    hs.append([{"dev": d1, "using": fo, "vals": vo, "semi": False},
+                               {"dev": d2, "using": fi, "vals": vi, "semi": False, "infn": True, "static": static, "lastitem": rng.random() < 0.5},
+                               {"dev": d1, "using": fi, "vals": vi, "semi": False}, {"dev": d2, "using": fo, "vals": vo, "semi": False}])
     return hs
 
 
